@@ -18,6 +18,7 @@ A Part is one way of producing cases for the same executable oracle:
 reports through ctx.fail(bucket, message, case, key=None) and ctx.note(...).  The same function is
 what `--replay FILE` calls, bypassing the generator library.
 """
+import contextlib
 import hashlib
 import json
 import os
@@ -32,12 +33,27 @@ MAX_BUCKETS = 5          # distinct root causes enumerated per part before givin
 MAX_SAMPLES = 6
 
 
+class _Sink:
+    def write(self, s):
+        return len(s)
+
+    def flush(self):
+        pass
+
+
+_SINK = _Sink()
+
+
 class Violation(Exception):
     def __init__(self, bucket, message, case=None):
         Exception.__init__(self, "%s: %s" % (bucket, message))
         self.bucket = bucket
         self.message = message
         self.case = case
+
+
+class Muted(BaseException):
+    """A failure in a bucket that was already reported: abandon the case silently."""
 
 
 class Inconclusive(BaseException):
@@ -140,7 +156,7 @@ class Ctx:
         full = "%s:%s:%s" % (self.prop, self.part, bucket)
         if full in self.muted:
             self.muted_hits[full] += 1
-            return
+            raise Muted()
         raise Violation(full, message, jsonable(case))
 
     def check(self, cond, bucket, message, case=None, key=None):
@@ -159,7 +175,10 @@ def guarded(ctx, check, case):
     """Run one case.  Exceptions escaping the code under test are violations (bucketed by type
     and innermost repository frame); exceptions of the harness itself are harness errors."""
     try:
-        check(ctx, case)
+        with contextlib.redirect_stdout(_SINK):     # the library prints warnings / progress straight to stdout
+            check(ctx, case)
+    except Muted:
+        return
     except (Violation, Inconclusive, env.HarnessError):
         raise
     except (KeyboardInterrupt, SystemExit):
@@ -174,7 +193,10 @@ def guarded(ctx, check, case):
         # numpy/matplotlib frames below a repository frame still count as the repository's failure
         if inner is not None and (last is None or not os.path.realpath(last.filename).startswith(env.VERIF + os.sep)):
             bucket = "exception:%s:%s" % (type(e).__name__, inner.name)
-            ctx.fail(bucket, "unexpected %s in %s:%d: %s" % (type(e).__name__, os.path.basename(inner.filename), inner.lineno, e), case)
+            try:
+                ctx.fail(bucket, "unexpected %s in %s:%d: %s" % (type(e).__name__, os.path.basename(inner.filename), inner.lineno, e), case)
+            except Muted:
+                pass
             return
         raise env.HarnessError("harness failure in %s/%s on case %r:\n%s" % (
             ctx.prop, ctx.part, case, "".join(traceback.format_exception(type(e), e, e.__traceback__))))
